@@ -1,2 +1,3 @@
 import KestrelProps.C01
 import KestrelProps.C18
+import KestrelProps.C19
